@@ -23,3 +23,87 @@ Theorem C06_wrappers_equal_with_forms : forall (T : Type) (p : profile) (F : fop
   forall s d, out_of (run_fresh F p a meth m n) = out_of (run_with F p a meth s d m n).
 Proof. exact wrapper_is_with_fresh. Qed.
 Print Assumptions C06_wrappers_equal_with_forms.
+
+(* ---- generic = primitive on tie-free runs (Proofs/AgreePG.v) ----
+   Whenever, at every iteration of the primitive (naive Lance-Williams) run, the
+   minimum of the working matrix over the pairs of live clusters is attained by
+   one pair only, generic_with returns THE SAME dendrogram (labels, sizes,
+   order, heights - equal, not merely close).  Any carrier; the hypotheses on
+   the order / update formula are those of C03_generic_greedy. *)
+Require Import KV.Model.Condensed KV.Model.Active KV.Model.Primitive KV.Proofs.ActiveRefine KV.Proofs.UpdateSpec
+  KV.Proofs.AgreePG KV.Proofs.AgreeInstances KV.Proofs.QInf.
+From Coq Require Import QArith.
+Local Close Scope Q_scope.
+
+(* the tie-freeness condition, pinned *)
+Theorem C06_min_unique_def : forall (T : Type) (K : kops T) (M : cmat T) (L : list nat),
+  min_unique K M L <->
+  (forall x y x' y' v w, In x L -> In y L -> x < y -> In x' L -> In y' L -> x' < y' -> (x, y) <> (x', y') ->
+     wcell M x y = Some v -> wcell M x' y' = Some w ->
+     (forall u1 u2 u, In u1 L -> In u2 L -> u1 < u2 -> wcell M u1 u2 = Some u -> k_ltb K u v = false) ->
+     k_ltb K v w = true).
+Proof. intros; reflexivity. Qed.
+Print Assumptions C06_min_unique_def.
+
+Theorem C06_tie_free_from_def : forall (T : Type) (K : kops T) (p : profile) (meth : method) i k sp dp Mp,
+  tie_free_from K p meth i k sp dp Mp <->
+  (forall j s d M L', j < k -> mfold (prim_iter K p meth) (seq i j) (sp, dp, Mp) = Ok (s, d, M) ->
+     AInv (st_active s) L' -> min_unique K M L').
+Proof. intros; reflexivity. Qed.
+Print Assumptions C06_tie_free_from_def.
+
+Theorem C06_primitive_generic_agree : forall (T : Type) (K : kops T) (p : profile) (meth : method),
+  (forall a, k_ltb K a a = false) ->
+  (forall a b c, k_ltb K a b = true -> k_ltb K b c = true -> k_ltb K a c = true) ->
+  (forall a b c, k_ltb K a b = false -> k_ltb K b c = false -> k_ltb K a c = false) ->
+  (forall a, k_eqb K a a = true) ->
+  (forall u v, k_eqb K u v = true -> k_ltb K v u = false) ->
+  (forall va vb md sa sb sx,
+     k_ltb K va (k_max K) = true -> k_ltb K vb (k_max K) = true -> k_ltb K md (k_max K) = true ->
+     k_ltb K (k_upd K va vb md sa sb sx) (k_max K) = true) ->
+  (below_kind_of meth = BelowRename ->
+     forall va vb md sa sb sx, (uses_sizes_ab meth = true -> 0 < sa /\ 0 < sb) ->
+     k_ltb K (k_upd K va vb md sa sb sx) va = false \/ k_ltb K (k_upd K va vb md sa sb sx) vb = false) ->
+  (tracks_candidates meth = false ->
+     forall va vb md sa sb sx, k_ltb K (k_upd K va vb md sa sb sx) vb = false) ->
+  (uses_sizes_ab meth = false ->
+     forall va vb md sa sb sa' sb' sx, k_upd K va vb md sa sb sx = k_upd K va vb md sa' sb' sx) ->
+  forall s1 d1 s2 d2 m n sp dp mp sg dg mg M0,
+  Forall (fun v => k_ltb K v (k_max K) = true) (square_all K m) ->
+  prologue p (square_all K m) n = Ok M0 ->
+  primitive_with K p meth s1 d1 m n = Ok (sp, dp, mp) ->
+  generic_with K p meth s2 d2 m n = Ok (sg, dg, mg) ->
+  tie_free_from K p meth 0 (m_obs M0 - 1) (st_reset K s1 (m_obs M0)) (d_reset d1 (m_obs M0)) M0 ->
+  dp = dg.
+Proof. exact primitive_generic_agree. Qed.
+Print Assumptions C06_primitive_generic_agree.
+
+Theorem C06_selection_primitive_generic_agree : forall (T : Type) (F : fops T) (p : profile),
+  (forall a, f_ltb F a a = false) ->
+  (forall a b c, f_ltb F a b = true -> f_ltb F b c = true -> f_ltb F a c = true) ->
+  (forall a b c, f_ltb F a b = false -> f_ltb F b c = false -> f_ltb F a c = false) ->
+  (forall a, f_eqb F a a = true) ->
+  (forall u v, f_eqb F u v = true -> f_ltb F v u = false) ->
+  forall meth s1 d1 s2 d2 (m : list T) (n : N) sp dp mp sg dg mg M0,
+  meth = Single \/ meth = Complete ->
+  Forall (fun v => f_ltb F v (f_max F) = true) m ->
+  prologue p m n = Ok M0 ->
+  primitive_with (kops_of F meth) p meth s1 d1 m n = Ok (sp, dp, mp) ->
+  generic_with (kops_of F meth) p meth s2 d2 m n = Ok (sg, dg, mg) ->
+  tie_free_from (kops_of F meth) p meth 0 (m_obs M0 - 1)
+    (st_reset (kops_of F meth) s1 (m_obs M0)) (d_reset d1 (m_obs M0)) M0 ->
+  dp = dg.
+Proof. exact selection_primitive_generic_agree. Qed.
+Print Assumptions C06_selection_primitive_generic_agree.
+
+(* exact rationals with the infinite sentinel: every method but Ward *)
+Theorem C06_QI_primitive_generic_agree : forall (p : profile) (rt : Q -> Q) (meth : method), meth <> Ward ->
+  forall s1 d1 s2 d2 (mq : list Q) (n : N) sp dp mp sg dg mg M0,
+  prologue p (square_all (kops_of (QI rt) meth) (map Some mq)) n = Ok M0 ->
+  primitive_with (kops_of (QI rt) meth) p meth s1 d1 (map Some mq) n = Ok (sp, dp, mp) ->
+  generic_with (kops_of (QI rt) meth) p meth s2 d2 (map Some mq) n = Ok (sg, dg, mg) ->
+  tie_free_from (kops_of (QI rt) meth) p meth 0 (m_obs M0 - 1)
+    (st_reset (kops_of (QI rt) meth) s1 (m_obs M0)) (d_reset d1 (m_obs M0)) M0 ->
+  dp = dg.
+Proof. exact QI_primitive_generic_agree. Qed.
+Print Assumptions C06_QI_primitive_generic_agree.
